@@ -312,6 +312,47 @@ def engine_obligations(ctx, repo, r_fifo, r_throttle, r_first, r_iso):
     except PyRaise as ex:
         ok, why = False, ex.what
     ctx.ob(r_iso, f"{ps.qual}::send-exception-contained", ok, f"{ps.qual}: a failing sendto is not contained or stops later sends ({why})", ps.loc)
+    # ... and the engine THREAD survives it, whichever handler entry point raises while a datagram is looked at
+    # (can_handle of the first-match search included): two passes of the thread's own loop, the first datagram makes a
+    # handler raise, the second must still be dispatched to the handler that accepts it
+    tf = repo.method(SOCK, "_thread_func")
+    for where in ("can_handle", "handle", "handled", "loop"):
+        e = Engine(repo)
+        inbox = [(b"<PACKT>one</PACKT>", ("10.0.0.9", 10022)), (b"<PACKT>two</PACKT>", ("10.0.0.9", 10022))]
+
+        def recvfrom(a, k, inbox=inbox):
+            if inbox:
+                return inbox.pop(0)
+            raise PyRaise("socket.timeout: timed out")
+        e.os_sock.attrs["recvfrom"] = Native(recvfrom, "recvfrom")
+        passes = {"n": 0}
+
+        def is_set(a, k, passes=passes):
+            passes["n"] += 1
+            return passes["n"] > 40          # the thread's loop condition may be read more than once per pass
+        e.obj.attrs["_exit_event"] = Obj(None, {"is_set": Native(is_set, "is_set"), "wait": Native(lambda a, k: None), "set": Native(lambda a, k: None)}, name="event")
+        faulty = e.handler("faulty", can=(lambda b: False) if where in ("can_handle", "loop") else (lambda b: b.find(b"one") >= 0))
+        raised = {"n": 0}
+
+        def boom(a, k, raised=raised, where=where):
+            if where == "can_handle" and a and isinstance(a[0], (bytes, bytearray)) and bytes(a[0]).find(b"one") < 0:
+                return False
+            raised["n"] += 1
+            raise PyRaise("IndexError: index out of range")
+        faulty.attrs[where] = Native(boom, where)
+        good2 = e.handler("good", can=lambda b: b.find(b"two") >= 0)
+        e.call("add_receive_handler", faulty)
+        e.call("add_receive_handler", good2)
+        try:
+            e.interp.steps = 0
+            e.call("_thread_func")
+            ok = raised["n"] >= 1 and ("good", "handle") in e.calls
+            why = f"the second datagram was {'dispatched' if ('good', 'handle') in e.calls else 'never dispatched'}, the faulty handler raised {raised['n']} time(s)"
+        except PyRaise as ex:
+            ok, why = False, f"{ex.what} leaves the thread's loop"
+        ctx.ob(r_iso, f"{tf.qual}::survives-exception-in-{where}", ok,
+               f"{tf.qual}: a handler whose {where}() raises {'in the timeout / retry phase (its retry-failed callback is client code)' if where == 'loop' else 'on a received datagram'}: {why} - the engine thread ends, nothing is sent, received, retried or retired any more while the socket still reads as open", tf.loc,
+               sample={"rule": r_iso, "raising": where, "calls": [list(c) for c in e.calls][:8]})
 
 
 def _largest_update_datagram():
